@@ -70,6 +70,9 @@ func runC03(e *Env) {
 	e.S.Floor("C03.limit", 2)
 	// "the literal pre-release and build texts": the Ver's strings are the parser's own copies, not views of the
 	// caller's bytes (C17.alias, sem part)
+	// "reject everything else": a failed match ends in an error
+	ruleNoMatchRejects(e, "C03.reject", e.Fn("C03.reject", "sem", "unmarshalText"))
+	e.S.Floor("C03.reject", 1)
 	ruleAliasFree(e, "C03.alias", true)
 	e.S.Floor("C03.alias", 4)
 }
